@@ -9,7 +9,7 @@ import (
 // lines drawn by walking the spec's syntax tree (a bias towards accepted inputs, never an oracle).
 
 var shortPool = []string{"a", "b", "c", "d", "e", "f"}
-var longPool = []string{"alpha", "beta", "gamma", "delta", "eps", "phi"}
+var longPool = []string{"alpha", "alpes", "gamma", "gamut", "eps", "phi"} // some share a prefix and a length: abbreviations are not options
 var argPool = []string{"SRC", "DST", "X", "Y"}
 
 func optNames(d *Decl) (short, long string) {
@@ -77,6 +77,9 @@ func genDeclsKinds(t *Tape, envProb int, stringOnly bool) *DeclSet {
 		}
 		if t.Draw(8) < envProb {
 			d.EnvVars = []int{i}
+			if i > 0 && len(ds.Opts[i-1].EnvVars) > 0 && ds.Opts[i-1].Kind == d.Kind && t.Draw(4) == 0 {
+				d.EnvVars = []int{ds.Opts[i-1].EnvVars[0]} // two declarations backed by one variable
+			}
 			d.EnvPad = []string{"", "", "", " ", "\n", "\t"}[t.Draw(6)]
 		}
 		if t.Draw(3) == 0 {
@@ -525,6 +528,9 @@ func genSentence(t *Tape, spec *specNode, ds *DeclSet, mutateProb int) *sentence
 			case 3:
 				k := t.Draw(len(s.toks) + 1)
 				j := t.Pick(junkTokens)
+				if t.Draw(3) == 0 {
+					j = []string{"--al", "--alp=1", "--ga", "--gam=x", "--ep", "--a"}[t.Draw(6)] // abbreviated long names are undeclared options
+				}
 				s.toks = append(s.toks[:k:k], append([]string{j}, s.toks[k:]...)...)
 			}
 		}
